@@ -1,14 +1,17 @@
 #!/bin/bash
-# usage: seedtest.sh <patch.diff> <Cxx> [<Cxx>...]   — applies a seeded change to /repo, runs the quick checks, undoes it
+# usage: seedtest.sh <patch.diff> <Cxx> [<Cxx>...]
+# Applies a seeded change to a scratch worktree of /repo (never to /repo itself, so that checks running against
+# /repo at the same time are not disturbed), runs the checks against it (VERIF_REPO), removes the worktree.
 set -u
 patch="$1"; shift
-cd /repo || exit 2
-if ! git diff --quiet; then echo "/repo has uncommitted changes"; exit 2; fi
+wt="$(mktemp -d /tmp/seedrepo.XXXXXX)"; rmdir "$wt"
+git -C /repo worktree add --detach "$wt" HEAD >/dev/null 2>&1 || { echo "cannot create the scratch worktree"; exit 2; }
+trap 'git -C /repo worktree remove --force "$wt" >/dev/null 2>&1; git -C /repo worktree prune' EXIT
+cd "$wt" || exit 2
 git apply "$patch" 2>/dev/null || patch -p1 -F3 -s < "$patch" || { echo "patch does not apply"; exit 2; }
 mkdir -p /tmp/seedev; cp /verif/known_findings.json /tmp/seedev/known_findings.json
-trap 'git -C /repo checkout -- . ; find /repo -name "*.orig" -o -name "*.rej" | xargs -r rm -f' EXIT
 for id in "$@"; do
-  out=$(VERIF_ROOT=/tmp/seedev /verif/run "$id" "${TIER:-quick}" 2>&1); rc=$?
+  out=$(VERIF_REPO="$wt" VERIF_ROOT=/tmp/seedev /verif/run "$id" "${TIER:-quick}" 2>&1); rc=$?
   echo "== $id rc=$rc: $(echo "$out" | grep -E 'VIOLATION|BUILD-FAILED|MACHINERY' | head -2 | cut -c1-200)"
   echo "$out" | grep -E "^violation|^  history|^  [a-z-]+/" | head -4 | cut -c1-300
 done
